@@ -11,6 +11,8 @@ pub mod conc;
 pub mod crash;
 pub mod fault;
 pub mod keys;
+pub mod multi;
+pub mod reclaim;
 pub mod seq;
 
 pub type NonTrivial = fn(&BTreeSet<String>) -> bool;
@@ -188,6 +190,8 @@ pub fn replay_any(body: &Value) -> Result<Option<String>, String> {
         Some("crash") => crash::replay(body),
         Some("fault") => fault::replay(body),
         Some("conc") => conc::replay(body),
+        Some("reclaim") => reclaim::replay(body),
+        Some("multi") => multi::replay(body),
         Some("c02-erasure") => seq::c02_erasure_replay(body),
         Some(k) => Err(format!("unknown replay kind {}", k)),
         None => Err("replay without kind".into()),
